@@ -266,3 +266,131 @@ def c02(rec):
     out.append({"status": "_stats", "fired": {k: n - fired0.get(k, 0) for k, n in rr.fired.items() if n != fired0.get(k, 0)},
                 "skipped": {}})
     return out
+
+
+def _einsum_form(t):
+    """If t is Red(plus, product-tree of tensor leaves) (or just a product tree) over scalar
+    leaves, return (plus, times, equation, leaf ASTs, output names); else None."""
+    if t["c"] == "Red":
+        plus, body, rvars = t["op"], t["arg"], [n for n, _ in t["vars"]]
+    else:
+        return None
+    leaves = []
+    times = []
+
+    def walk(b):
+        if b["c"] == "Ten" and not b["sh"]:
+            leaves.append(b)
+            return True
+        if b["c"] == "Bin" and not b["op"]["p"]:
+            times.append(b["op"]["n"])
+            return walk(b["l"]) and walk(b["r"])
+        return False
+    if not walk(body) or len(set(times)) > 1:
+        return None
+    names = []
+    for lf in leaves:
+        for n, _ in lf["ins"]:
+            if n not in names:
+                names.append(n)
+    if any(n not in names for n in rvars):
+        return None     # einsum cannot express a reduced variable no operand has
+    sym = {n: chr(ord("a") + k) for k, n in enumerate(names)}
+    outs = [n for n in names if n not in rvars]
+    eq = ",".join("".join(sym[n] for n, _ in lf["ins"]) for lf in leaves) + "->" + "".join(sym[n] for n in outs)
+    return plus, (times[0] if times else None), eq, leaves, outs
+
+
+EINSUM_BACKENDS = {("add", "mul"): "numpy", ("logaddexp", "add"): "funsor.einsum.numpy_log",
+                   ("max", "add"): "funsor.einsum.numpy_map"}
+
+
+def c08(rec):
+    """C08: the normalised term, the unfolded term, the optimizer's re-bracketing and einsum()
+    all denote the naive value.  Terms are returned as events for TLC (C->S); eager values are
+    compared here with the table TLC emitted (S->C)."""
+    from collections import OrderedDict
+    from funsor.optimizer import apply_optimizer, unfold
+    from . import fast
+    exp = rec["exp"]
+    t = rec["t"]
+    out = []
+    events = []
+    try:
+        x = _build(rec, lazy)
+    except Exception as e:  # noqa
+        return [_verdict("C08", "declined_error", "build:" + type(e).__name__)]
+    if not isinstance(x, Funsor):
+        return []
+
+    def emit(what, y):
+        try:
+            events.append({"kind": "deneq", "what": what, "lhs": t, "rhs": fast.to_ast(y)})
+        except fast.Unrepresentable as ex:
+            out.append(_verdict("C08", "skipped_unrepresentable", what + ":" + str(ex)[:40]))
+
+    def value(what, y):
+        try:
+            e = funsor.reinterpret(y)
+        except Exception as ex:  # noqa
+            out.append(_verdict("C08", "declined_error", what + ":" + type(ex).__name__))
+            return
+        out.append(_eval_check(e, exp, "C08", what, need_output=False))
+
+    # 1. normalize
+    try:
+        with normalize:
+            y = funsor.reinterpret(x)
+            y2 = funsor.reinterpret(y)
+        if y2 is not y:
+            out.append(_verdict("C08", "mismatch", "normalize_not_idempotent",
+                                {"once": str(y)[:200], "twice": str(y2)[:200]}))
+        emit("normalize", y)
+        value("normalize", y)
+    except Exception as ex:  # noqa
+        out.append(_verdict("C08", "declined_error", "normalize:" + type(ex).__name__))
+    # 2. unfold
+    try:
+        with unfold:
+            u = funsor.reinterpret(x)
+        emit("unfold", u)
+        value("unfold", u)
+    except Exception as ex:  # noqa
+        out.append(_verdict("C08", "declined_error", "unfold:" + type(ex).__name__))
+    # 3. optimizer: the re-bracketed term (lazy base) and its eager value
+    try:
+        with lazy:
+            o = apply_optimizer(x)
+        emit("optimize", o)
+        value("optimize", o)
+        e = apply_optimizer(x)
+        out.append(_eval_check(e, exp, "C08", "optimize_eager", need_output=False))
+    except Exception as ex:  # noqa
+        out.append(_verdict("C08", "declined_error", "optimize:" + type(ex).__name__))
+    # 4. einsum front end
+    form = _einsum_form(t)
+    if form is not None and (form[0], form[1]) in EINSUM_BACKENDS:
+        from funsor.einsum import einsum
+        plus, times, eq, leaves, outs = form
+        try:
+            b = fbuild.Builder()
+            operands = []
+            for lf in leaves:
+                ten = b.build(lf)
+                # einsum operands are funsors whose inputs are named by the equation's symbols
+                operands.append(ten)
+            names = []
+            for lf in leaves:
+                for n, _ in lf["ins"]:
+                    if n not in names:
+                        names.append(n)
+            sym = {n: chr(ord("a") + k) for k, n in enumerate(names)}
+            ren = [op(**{n: sym[n] for n in op.inputs}) for op in operands]
+            r = einsum(eq, *ren, backend=EINSUM_BACKENDS[(plus, times)])
+            back = {v: k for k, v in sym.items()}
+            r = r(**{s: back[s] for s in r.inputs})
+            out.append(_eval_check(r, exp, "C08", "einsum", need_output=False))
+        except Exception as ex:  # noqa
+            out.append(_verdict("C08", "declined_error", "einsum:" + type(ex).__name__))
+    out.extend({"status": "_event", "event": e} for e in events)
+    return out
